@@ -12,10 +12,10 @@ ORDER = []
 class Contract:
     def __init__(self, name, tu, sig=None, targs=None, key=None, serves=(), requires=(), lets=None, throws=None,
                  may_throw=False, ensures=(), ensures_exc=(), assigns=(), loops=None, scenarios=None,
-                 inline=False, trusted=False, pure=False, ghost=None, auto=True, result_fresh=True,
+                 inline=False, trusted=False, pure=False, auto=True, result_fresh=True,
                  prop_of=None, notes='', cls_targs=None, verify=True, terminates=True, unroll=None,
                  reads_only=False, this_shape=None, extra_env=None, body_assumes=(), max_paths=4000,
-                 returns_ref=None, timeout_ms=None, sig_not=None, binds=None):
+                 returns_ref=None, timeout_ms=None, sig_not=None, binds=None, ghost=None, ghost_on=(), nowrap=False):
         self.name = name
         self.tu = tu
         self.sig = sig
@@ -45,6 +45,9 @@ class Contract:
         self.returns_ref = returns_ref
         self.sig_not = sig_not
         self.binds = dict(binds or {})
+        self.ghost = dict(ghost or {})
+        self.ghost_on = list(ghost_on)
+        self.nowrap = nowrap
         self.timeout_ms = timeout_ms
 
     def props_for(self, label):
@@ -421,7 +424,15 @@ def eqv(a, b):
     return a == b
 
 
+def _pow2(y, bits=64):
+    from .core import pow2_ite
+    if isinstance(y, int):
+        return z3.IntVal(1 << y)
+    return pow2_ite(y, bits)
+
+
 BASE_NS = {
+    'pow2': _pow2,
     'add': _arith('+'), 'sub': _arith('-'), 'mul': _arith('*'), 'div': _arith('/'), 'eqv': eqv,
     'cx': cx, 'CDIV_DEF': cdiv_def, 'INSLICE': INSLICE, 'INSLICE_AX': inslice_ax,
     'And': z3.And, 'Or': z3.Or, 'Not': z3.Not, 'Implies': z3.Implies, 'If': z3.If, 'Xor': z3.Xor,
